@@ -144,6 +144,13 @@ func vpC10_O3() {
 	if widx > last {
 		expect = widx
 	}
+	if (corrupt == 9 || corrupt == 10 || corrupt == 11) && vpBool("withoutEvents") {
+		// an update message of length 0 whose signed accumulator is not authentic: a failed check
+		// must not make a later check of the same object succeed
+		upd.Events = nil
+		_, first := upd.Verify(h.pk)
+		vpAssert("corrupted update is rejected by Update.Verify", first != nil)
+	}
 	oldU, oldSacc, oldAcc, oldUpdated := wit.U, wit.SignedAccumulator, wit.SignedAccumulator.Accumulator, wit.Updated
 	// the witness sees the message first (verification marks event lists as verified)
 	uerr := wit.Update(h.pk, upd)
